@@ -45,7 +45,7 @@ META["C01"] = {
 }
 META["C14"] = {
     "text": "Bounded symbolic model checking of the real SnapshotPayouts, SnapshotCurrent, SelectSnapshotBalances (the two-table MIN join, parsed from the repo's SQL), Convert, ConversionSupplySet, InsertStakingCoinbase and AddToBalance from symbolic snapshot tables: stake = sum of floor(min(past,cur)*rate/rateUSD) over non-PEG assets (zero rates skipped from 2.0.2), payouts proportional with dust < n, total <= 4500 PEG x 144 and == it when stake exceeds it, full payout below the cap, nothing for addresses absent from either snapshot, only PEG touched, one history row per payee with the credited amount.",
-    "note": "2 addresses in both snapshots + 1 only-new + 1 only-old with 1 asset (2 thorough); 3 stakers for allocation; heights: first snapshot >= 2.0 and >= 2.0.2 (heights are formatted into the mock txid, hence concrete); the when-to-snapshot glue of SyncBlock is covered with C15/C02 glue",
+    "note": "2 addresses in both snapshots + 1 only-new + 1 only-old with 1 asset (2 thorough); 3 stakers for allocation; heights: first snapshot >= 2.0 and >= 2.0.2 (heights are formatted into the mock txid, hence concrete); the when-to-snapshot glue is asserted in the SyncBlock glue harness (closed-era finding D7: an out-of-band block skips the snapshot, reported as KNOWN-FINDING)",
     "design_ref": "DESIGN.md §7 C14",
 }
 
@@ -67,12 +67,12 @@ META["C08"] = {
 
 META["C11"] = {
     "text": "Bounded symbolic model checking of the real ApplyGradedOPRBlock / ApplyGradedSPRBlock (+ InsertCoinbase, InsertStaking100Coinbase, AddToBalance) for an ARBITRARY grader verdict: each winner's payout address receives exactly Payout() once, an unparsable address pays nothing, nobody else changes, supply grows by the sum, one coinbase history record per paid winner with the amount.",
-    "note": "plus the glue harnesses: the real Grade/GradeS (entries handed to the grader, top-holder filter) and the real SyncBlock (who is paid in which era, FCT burns credited) with grader constructors and Factom requests stubbed (natively through a dependency hook overlay); the grading decision itself is dependency code; binding of the declared staker id to the signing key (D17) is not encoded (DESIGN §0.6)",
+    "note": "plus the glue harnesses: the real Grade/GradeS (entries handed to the grader, top-holder filter) and the real SyncBlock (who is paid in which era, FCT burns credited) with grader constructors and Factom requests stubbed (natively through a dependency hook overlay); the grading decision itself is dependency code; binding of the declared staker id to the signing key (D17) is not encoded (DESIGN §0.6); closed-era finding D7 (out-of-band block committed without its effects, incl. the winners' rewards) is reported as KNOWN-FINDING",
     "design_ref": "DESIGN.md §7 C11",
 }
 META["C15"] = {
     "text": "Bounded symbolic model checking of the real DevelopersPayouts (+ InsertDeveloperRewardCoinbase), MintTokensForBalance and NullifyMintedTokens with symbolic prior balances: per-address developer amounts from the specified percentage table, total exactly 2000 PEG (x144 from 2.0.2), minted amounts per asset from the specified table x 1e8, remaining minted supply driven to exactly 0 for listed assets and untouched otherwise, bystanders untouched, history records written.",
-    "note": "units at the relevant concrete heights per era; the cadence (height == activation, height % 144, snapshot-before-payout) is asserted in the SyncBlock glue harness over 14 heights",
+    "note": "units at the relevant concrete heights per era; the cadence (height == activation, height % 144, snapshot-before-payout) is asserted in the SyncBlock glue harness over 14 heights (closed-era finding D7: an out-of-band block skips the developer payout, reported as KNOWN-FINDING)",
     "design_ref": "DESIGN.md §7 C15",
 }
 
@@ -89,8 +89,8 @@ META["C20"] = {
 }
 
 META["C12"] = {
-    "text": "Bounded symbolic model checking of (a) the real GetAssetRates in the open era (>= 2.0.2): with float64 modelled EXACTLY (dyadic rationals, inputs bounded so no rounding can occur) the solver shows for all OPR/SPR rates that each recorded rate is the OPR's when 0.75*spr <= opr <= 1.25*spr and 0 otherwise, and the other winner's rates when one is absent; (b) the real InsertRates/insertRate/SelectIssuances: one row per asset named p<asset>, PEG priced 0 / floor(sum(supply*rate)/supply_PEG) / as reported by phase, a second insert for a height fails and changes nothing, pn_rate is never updated or deleted.",
-    "note": "closed-era bands (10 %, 1 %/0.1 %) need IEEE rounding of non-dyadic constants and are NOT covered (with both winners present only heights >= 2.0.2 are explored; known design-time finding D7 lives in the uncovered era); which phase SyncBlock selects per height and 'no winners => no rates' are asserted in the SyncBlock glue harness",
+    "text": "Bounded symbolic model checking of (a) the real GetAssetRates / GetAssetRatesV0 in every band era: with float64 modelled EXACTLY (dyadic rationals; IEEE round-to-nearest-even applied where a product is not representable) the solver shows for all OPR/SPR rates that each recorded rate is the OPR's when 0.75*spr <= opr <= 1.25*spr and 0 otherwise, and the other winner's rates when one is absent; (b) the real InsertRates/insertRate/SelectIssuances: one row per asset named p<asset>, PEG priced 0 / floor(sum(supply*rate)/supply_PEG) / as reported by phase, a second insert for a height fails and changes nothing, pn_rate is never updated or deleted.",
+    "note": "closed-era bands (GetAssetRatesV0 1 %/0.1 %, GetAssetRates 10 %): float64 products are followed with exact IEEE round-to-nearest-even (fork per binade), one symbolic asset, rates < 2^30 quick / 2^50 thorough, band-edge witnesses replayed on hardware floats every run; which phase/band SyncBlock selects per height and 'no winners => no rates' are asserted in the SyncBlock glue harness (closed-era both-winner blocks with rates in one binade window)",
     "design_ref": "DESIGN.md §7 C12",
 }
 
